@@ -365,6 +365,28 @@ class BytesMixin(object):
     if name == 'written':      # everything appended to the stream by this function
       b = self.buf_of(st, args[0])
       return mk_bytes(b['data'][b.get('mark', 0):])
+    if name == 'stream_front':
+      # unfold a repetition: the unread rest of the stream starts with the given bytes
+      # (precondition "the stream is the encoding of ..." applied to the next element)
+      b = dict(self.buf_of(st, args[0]))
+      rest_sym, rest_len = z3.Int(fresh_name('rest')), z3.Int(fresh_name('restlen'))
+      st.assume(rest_len >= 0)
+      b['data'] = list(b['data'][:b['rpos']]) + list(args[1].py) + [('raw', rest_sym, rest_len)]
+      b['reading'] = True
+      st.bufs[self.buf_key(args[0])] = b
+      return mk_bool(True)
+    if name == 'summands':     # the list whose sum() produced this number
+      if not (isinstance(args[0].py, tuple) and args[0].py and args[0].py[0] == 'sum'):
+        raise Unsupported('summands(): the value is not the result of sum(<list>)')
+      return args[0].py[1]
+    if name == 'sum_of':       # the function behind python's sum() on a list
+      return V(INT, z3.Function('sum_list', I, I)(args[0].t))
+    if name == 'crc_of':       # zlib.crc32 of a byte string (same uninterpreted function as the code's)
+      parts = []
+      for a in normalise(args[0].py):
+        parts.extend([z3.IntVal({'u': 1, 'raw': 2, 'fix': 3}[a[0]])] + [x if not isinstance(x, int) else z3.IntVal(x) for x in a[1:]])
+      f = z3.Function('crc32_%d' % len(parts), *([I] * (len(parts) + 1)))
+      return V(INT, f(*parts))
     if name == 'bmark':        # position marker: number of atoms written so far (ghost bookkeeping)
       return V(INT, z3.IntVal(len(self.buf_of(st, args[0])['data'])))
     if name == 'since':        # bytes appended after a marker
@@ -381,4 +403,4 @@ class BytesMixin(object):
 
 
 BYTE_SPEC_FNS = ('bi8', 'bu8', 'bi16', 'bu16', 'bu24', 'bi32', 'bu32', 'bi64', 'bcat', 'braw', 'bempty', 'blen', 'beq',
-                 'written', 'content', 'utf8', 'bmark', 'since')
+                 'written', 'content', 'utf8', 'bmark', 'since', 'sum_of', 'crc_of', 'summands', 'stream_front')
